@@ -15,6 +15,12 @@ import (
 	"testing"
 	"time"
 
+	"github.com/AdguardTeam/AdGuardHome/internal/aghhttp"
+	"github.com/AdguardTeam/AdGuardHome/internal/dhcpd"
+	"github.com/AdguardTeam/AdGuardHome/internal/dnsforward"
+	"github.com/AdguardTeam/AdGuardHome/internal/filtering"
+	"github.com/AdguardTeam/AdGuardHome/internal/querylog"
+	"github.com/AdguardTeam/AdGuardHome/internal/stats"
 	"github.com/AdguardTeam/golibs/netutil"
 	"github.com/NYTimes/gziphandler"
 )
@@ -50,9 +56,9 @@ type c11Chain struct {
 
 // c11Tokens: the cookie values of the shapes (the keys of Auth.sessions are
 // the lower-case hex strings 2..4; 5 and 6 are other spellings of 3 and 4).
-var c11Tokens = []string{"", "ffffffffffffffffffffffffffffffff", "0a0b0c0d0e0f00000000000000000001",
-	"0a0b0c0d0e0f00000000000000000002", "0a0b0c0d0e0f00000000000000000003",
-	"0A0B0C0D0E0F00000000000000000002", "0a0B0c0D0e0F00000000000000000003"}
+// One byte instead of sixteen: the middleware does not look at the length, and
+// the cases stay small (C12 runs the real 16-byte tokens).
+var c11Tokens = []string{"", "ff", "0a", "0b", "0c", "0B", "0C"}
 
 func c11Wrappers(names ...string) string {
 	items := make([]string, len(names))
@@ -777,6 +783,75 @@ func TestVerifC11(t *testing.T) {
 				q.ctype, q.body = "application/json", 1
 			}
 			c11MuxProbe(out, homeMux, "home-real-registration", q, nil, rt.Pos)
+		}
+	}
+	// (1b) the registrations of the other packages, made by THEIR real
+	// registration functions (export shims harness/shims/c11_routes_*.go) with
+	// the real httpRegister on a fresh mux: real patterns, real methods, real
+	// handlers (bound to zero receivers: reaching one is a failure, usually a
+	// panic).  Both directions of the table are checked on the way: every
+	// registration made is in the table, every table route of these packages
+	// was made.
+	globalContext.mux = http.NewServeMux()
+	made := map[string]string{}
+	pkgOf := ""
+	var counting aghhttp.RegisterFunc = func(method, url string, h http.HandlerFunc) {
+		made[method+" "+url] = pkgOf
+		httpRegister(method, url, h)
+	}
+	pkgs := []struct {
+		name string
+		reg  func(aghhttp.RegisterFunc)
+	}{
+		{"dnsforward", dnsforward.VerifRegisterRoutes}, {"filtering", filtering.VerifRegisterRoutes}, {"stats", stats.VerifRegisterRoutes},
+		{"querylog", querylog.VerifRegisterRoutes}, {"dhcpd", dhcpd.VerifRegisterRoutes},
+	}
+	ranPkgs := map[string]bool{}
+	for _, pk := range pkgs {
+		pk := pk
+		pkgOf = pk.name
+		try("pkg-"+pk.name, func() { pk.reg(counting); ranPkgs[pk.name] = true })
+	}
+	out.Note("real-registrations-other-packages", len(made))
+	pkgMux := globalContext.mux
+	inTable := map[string]bool{}
+	for _, rt := range routes {
+		pk := ""
+		for _, c := range pkgs {
+			if strings.Contains(rt.Func, "/internal/"+c.name+".") {
+				pk = c.name
+			}
+		}
+		if pk == "" || rt.Kind != "ViaRegister" {
+			continue
+		}
+		inTable[rt.Method+" "+rt.Pattern] = true
+		if !ranPkgs[pk] || strings.Contains(rt.Pos, "_windows.go") {
+			continue
+		}
+		if _, ok := made[rt.Method+" "+rt.Pattern]; !ok {
+			out.Emit(vfCase{Coq: vfApp("C11.CMux", vfBool(false), vfBool(false)), Key: vfHash("table-not-made", rt.Pattern), MonitorOK: false,
+				MonitorMsg: fmt.Sprintf("the route table lists %s %s (%s) but the real registration function of %s did not register it", rt.Method, rt.Pattern, rt.Pos, pk),
+				FindingKey: "c11-table-route-not-registered:" + rt.Pattern, Classes: []string{"pkg-real-registration"}})
+			continue
+		}
+		if c11Exception(rt.Pattern) {
+			continue
+		}
+		for _, nc := range noCred {
+			q := nc
+			q.method, q.path = rt.Method, rt.Pattern
+			if q.method != "GET" {
+				q.ctype, q.body = "application/json", 1
+			}
+			c11MuxProbe(out, pkgMux, "pkg-real-registration", q, nil, rt.Pos)
+		}
+	}
+	for k, pk := range made {
+		if !inTable[k] {
+			out.Emit(vfCase{Coq: vfApp("C11.CMux", vfBool(false), vfBool(true)), Key: vfHash("made-not-in-table", k), MonitorOK: false,
+				MonitorMsg: fmt.Sprintf("the real registration function of %s registers %s, which the route table extracted from the source does not list", pk, k),
+				FindingKey: "c11-registered-route-not-in-table:" + k, Classes: []string{"pkg-real-registration"}})
 		}
 	}
 	// (2) every route registered through a RegisterFunc anywhere: a probe
